@@ -160,6 +160,17 @@ func c14Build(shape, position, custom string) *c14World {
 		w.f.Use(w.handler(shape))
 		w.f.Get("/", next)
 	}
+	if custom == "app-late" {
+		// the custom return handler is mapped on the application only after requests have been served
+		w.v = c14Vals{S: "warm-up", B: []byte("warm-up"), Err: "errors.New", Code: 200}
+		for i := 0; i < 2; i++ {
+			func() {
+				defer func() { _ = recover() }()
+				w.f.ServeHTTP(&c01Spy{hdr: http.Header{}}, newReq("GET", "/"))
+			}()
+		}
+		w.f.Map(customRH)
+	}
 	return w
 }
 
@@ -363,7 +374,7 @@ func c14Run(r *core.Run) {
 	r.Rule = "engine E: every supported return shape x every value (empty, nil, all 256 single bytes, 1 KiB, every status 100..999, nil / errors.New / struct / pointer-receiver errors, nil pointers) x position {first of two handlers, last before the action, application middleware} x {default table, custom ReturnHandler at application scope, at request scope}; oracle = the statement's table, 'wrote nothing' observed as 'the next handler ran'; non-trivial = value that is nil/empty/zero, an error, or a non-200 status"
 	r.Assumptions = []string{"a non-nil pointer to an empty value is not covered by the statement and is asserted neither way (counted)", "status codes outside 100..999 (what net/http accepts) are outside the quantifier"}
 	positions := []string{"first-of-two", "last", "middleware"}
-	customs := []string{"", "app", "request", "request-late"}
+	customs := []string{"", "app", "request", "request-late", "app-late"}
 	type job struct{ shape, pos, custom string }
 	var jobs []job
 	for _, s := range c14Shapes {
